@@ -17,7 +17,7 @@ from .. import cover, gen, itpspec, ref
 LEVEL = 'exploration'
 JOBS = {'quick': 2, 'thorough': 16}
 REQUIRED_MONITORS = ('topology_vs_truth', 'connectivity_vs_unionfind', 'copy_isolation')
-REQUIRED_CLASSES = ('include-target-exists', 'copy:after-modification', 'numbering:gaps', 'numbering:offset', 'bonds-three-way', 'decorated', 'kind:forest', 'kind:cyclic', 'kind:disconnected-cyclic', 'bonds:exactly-n-1-disconnected', 'conditional-block-with-else',
+REQUIRED_CLASSES = ('include-target-exists', 'colliding-number-strings', 'copy:after-modification', 'numbering:gaps', 'numbering:offset', 'bonds-three-way', 'decorated', 'kind:forest', 'kind:cyclic', 'kind:disconnected-cyclic', 'bonds:exactly-n-1-disconnected', 'conditional-block-with-else',
                     'kind:chain', 'long-chain', 'multi-residue', 'connected:yes', 'connected:no',
                     'repeated-section', 'are_connected:Molecule.atoms', 'shipped')
 RULE = ('generated topology files: graph kind x size (1..3000) x atom numbering (plain/offset/gaps) x bond split over '
